@@ -6,6 +6,7 @@ package main
 // process although the key bits differ from run to run.
 
 import (
+	"bytes"
 	"crypto"
 	"crypto/ecdsa"
 	"crypto/ed25519"
@@ -19,6 +20,7 @@ import (
 	"fmt"
 	"io"
 	"math/big"
+	"net"
 	"os"
 	"path/filepath"
 	"strings"
@@ -38,6 +40,10 @@ var caNames = []string{"A", "B", "C", "P", "SYS", "U", "CCA"}
 // server identities are issued by these, for these names
 var serverCAs = []string{"A", "B", "C", "P", "SYS", "U"}
 var serverNames = []string{"srv.test", "other.test"}
+
+// servers identified by an IP subjectAltName instead of a DNS one (issuers A and U only;
+// used by the edge-value sweep, not part of allScenarios)
+var ipServerNames = []string{"192.0.2.10", "2001:db8::1"}
 
 const dialHost = "srv.test" // the host every connection is "dialled" to
 
@@ -90,7 +96,7 @@ func newCA(name string) (*x509.Certificate, crypto.Signer, error) {
 	return c, k, err
 }
 
-func (m *material) issue(ca string, cn string, dns []string, pub crypto.PublicKey, usage x509.ExtKeyUsage) (*x509.Certificate, error) {
+func (m *material) issue(ca string, cn string, dns []string, pub crypto.PublicKey, usage x509.ExtKeyUsage, ips ...net.IP) (*x509.Certificate, error) {
 	t := &x509.Certificate{
 		SerialNumber: nextSerial(),
 		Subject:      pkix.Name{CommonName: cn, Organization: []string{"verif-c18"}},
@@ -99,6 +105,7 @@ func (m *material) issue(ca string, cn string, dns []string, pub crypto.PublicKe
 		KeyUsage:     x509.KeyUsageDigitalSignature | x509.KeyUsageKeyEncipherment,
 		ExtKeyUsage:  []x509.ExtKeyUsage{usage},
 		DNSNames:     dns,
+		IPAddresses:  ips,
 	}
 	der, err := x509.CreateCertificate(rand.Reader, t, m.caCert[ca], pub, m.caKey[ca])
 	if err != nil {
@@ -185,7 +192,23 @@ func genMaterial() (*material, error) {
 			m.srv[ca+"/"+name] = &tls.Certificate{Certificate: [][]byte{c.Raw}, PrivateKey: k, Leaf: c}
 		}
 	}
-	for _, s := range allScenarios() {
+	for _, ca := range []string{"A", "U"} {
+		for _, ip := range ipServerNames {
+			k, err := ecdsa.GenerateKey(elliptic.P256(), rand.Reader)
+			if err != nil {
+				return m, err
+			}
+			c, err := m.issue(ca, "c18 ip server", nil, k.Public(), x509.ExtKeyUsageServerAuth, net.ParseIP(ip))
+			if err != nil {
+				return m, err
+			}
+			m.srv[ca+"/"+ip] = &tls.Certificate{Certificate: [][]byte{c.Raw}, PrivateKey: k, Leaf: c}
+		}
+	}
+	for _, s := range append(allScenarios(), edgeScenarios()...) {
+		if m.srvConf[s] != nil {
+			continue
+		}
 		sc, err := parseScenario(s)
 		if err != nil {
 			return m, err
@@ -228,7 +251,29 @@ func genMaterial() (*material, error) {
 	badBlock := pem.EncodeToMemory(&pem.Block{Type: "CERTIFICATE", Bytes: []byte{0x30, 0x03, 0x02, 0x01, 0x01}})
 	otherBlock := pem.EncodeToMemory(&pem.Block{Type: "X509 CRL", Bytes: []byte{1, 2, 3}})
 	mixed := append(append(append(append([]byte{}, junk...), badBlock...), otherBlock...), pemCert(m.caCert["A"])...)
+	crlf := func(b []byte) []byte { return bytes.ReplaceAll(b, []byte("\n"), []byte("\r\n")) }
+	lead := func(b []byte) []byte {
+		return append([]byte("Bag Attributes\n    friendlyName: c18 \xc3\xa9 \xf0\x9f\x98\x80\nsubject=/CN=explanatory text before the block\n\n"), b...)
+	}
+	trail := func(b []byte) []byte { return append(append([]byte{}, b...), junk...) }
 	files := map[string][]byte{
+		// edge shapes of PEM files: several blocks in the other order, explanatory text before the
+		// block (RFC 7468 section 2), CRLF line ends, garbage after the block, an empty file, and a
+		// valid bundle at a path with spaces and non-ASCII characters
+		"ca-BA.pem":        pemCert(m.caCert["B"], m.caCert["A"]),
+		"ca-lead.pem":      lead(pemCert(m.caCert["A"])),
+		"ca-crlf.pem":      crlf(pemCert(m.caCert["A"])),
+		"ca-trail.pem":     trail(pemCert(m.caCert["A"])),
+		"ca-empty.pem":     {},
+		"ca-uni pa th \xc3\xbc\xf0\x9f\x98\x80.pem": pemCert(m.caCert["A"]),
+		"cert-E1lead.pem":  lead(pemCert(m.clientCert["E1"])),
+		"cert-E1crlf.pem":  crlf(pemCert(m.clientCert["E1"])),
+		"cert-E1trail.pem": trail(pemCert(m.clientCert["E1"])),
+		"cert-empty.pem":   {},
+		"key-kE1lead.pem":  lead(ec(m.keys["E1"])),
+		"key-kE1crlf.pem":  crlf(ec(m.keys["E1"])),
+		"key-kE1trail.pem": trail(ec(m.keys["E1"])),
+		"key-empty.pem":    {},
 		"cert-R1.pem":      pemCert(m.clientCert["R1"]),
 		"cert-E1.pem":      pemCert(m.clientCert["E1"]),
 		"cert-D1.pem":      pemCert(m.clientCert["D1"]),
@@ -271,8 +316,15 @@ func (m *material) cleanup() {
 // path of the file behind a logical name of a file slot ("" = option unset).
 // "missing" names a path that does not exist, "dir" a directory (unreadable as a file).
 func (m *material) path(slot, name string) string {
-	if name == "" {
+	switch name {
+	case "":
 		return ""
+	case "space":
+		return " " // a path that is a single space: no such file
+	case "nulpath":
+		return filepath.Join(m.dir, slot+"-A\x00.pem") // NUL inside the path: the OS refuses it
+	case "unipath":
+		return filepath.Join(m.dir, slot+"-uni pa th \xc3\xbc\xf0\x9f\x98\x80.pem")
 	}
 	return filepath.Join(m.dir, slot+"-"+name+".pem")
 }
